@@ -356,3 +356,149 @@ func (r *Run) bigdump19(round int) {
 		r.Fail("the cache after GET /dump -> POST /load_dump does not hold the same number of entries", desc)
 	}
 }
+
+// ---- caches configured with a size below the documented minimum ------------
+//
+// "size" of the cache plugin is a legal value whatever it is; pkg/cache raises
+// 1..1023 to 1024 entries, so a cache configured with size 1 holds up to 1024
+// answers like any other, and the statement's first sentence ("dumping a cache
+// and loading the dump into an empty cache reproduces the same live entries")
+// speaks of every cache this mosdns can hold, not of the configured number.
+// Caches with seeded small sizes are filled to what they really hold with
+// ordinary (A), medium (1..2 KiB TXT) or big (14..19 KiB TXT) answers, dumped
+// with GET /dump over real HTTP and posted (with a Content-Length or chunked)
+// to /load_dump of an empty cache of the same configured size: 200, and every
+// live entry is there again with its answer and times.
+
+type chunked19 struct{ r io.Reader } // hides Len(): the client sends the body chunked
+
+func (c chunked19) Read(p []byte) (int, error) { return c.r.Read(p) }
+
+func (r *Run) smalldump19(round int) {
+	began := time.Now()
+	sizes := []int{1, 2, 4, 16, 64, 256, 1023, 1 + r.Rng.Intn(1023)}
+	size := sizes[r.Rng.Intn(len(sizes))]
+	kind := r.Rng.Intn(3) // 0 ordinary, 1 medium, 2 big
+	if round == 0 {       // the plainest case in every run: a tiny size, ordinary or medium answers
+		size = []int{1, 4}[r.Rng.Intn(2)]
+		kind = r.Rng.Intn(2)
+	}
+	lazy := []int{0, 86400}[r.Rng.Intn(2)]
+	a := cache.NewCache(&cache.Args{Size: size, LazyCacheTTL: lazy}, cache.Opts{})
+	defer a.Close()
+	b := cache.NewCache(&cache.Args{Size: size, LazyCacheTTL: lazy}, cache.Opts{})
+	defer b.Close()
+	want := 850 + r.Rng.Intn(150) // the backend holds 1024 in 64 shards; fill until this many are live
+	raw := make([]byte, 765)
+	var tried []string
+	for i := 0; i < 4000 && a.VerifLen() < want; i++ {
+		q := new(dns.Msg)
+		resp := new(dns.Msg)
+		switch kind {
+		case 0:
+			name := fmt.Sprintf("h%d.small%d.example.", i, r.Rng.Intn(1000))
+			q.SetQuestion(name, dns.TypeA)
+			resp.SetReply(q)
+			for j := 1 + r.Rng.Intn(4); j > 0; j-- {
+				resp.Answer = append(resp.Answer, &dns.A{Hdr: dns.RR_Header{Name: name, Rrtype: dns.TypeA, Class: dns.ClassINET, Ttl: uint32(3600 + r.Rng.Intn(3600))}, A: []byte{198, 51, byte(r.Rng.Intn(256)), byte(r.Rng.Intn(256))}})
+			}
+		default:
+			name := fmt.Sprintf("k%d._domainkey.small%d.example.", i, r.Rng.Intn(1000))
+			q.SetQuestion(name, dns.TypeTXT)
+			resp.SetReply(q)
+			nrec := 1 + r.Rng.Intn(2)
+			if kind == 2 {
+				nrec = 14 + r.Rng.Intn(6)
+			}
+			for j := 0; j < nrec; j++ {
+				r.Rng.Read(raw)
+				s := base64.StdEncoding.EncodeToString(raw) // 1020 characters
+				resp.Answer = append(resp.Answer, &dns.TXT{Hdr: dns.RR_Header{Name: name, Rrtype: dns.TypeTXT, Class: dns.ClassINET, Ttl: uint32(3600 + r.Rng.Intn(3600))},
+					Txt: []string{s[:255], s[255:510], s[510:765], s[765:1020]}})
+			}
+		}
+		k := cache.VerifGetMsgKey(q)
+		if a.VerifSave(k, resp) {
+			tried = append(tried, k)
+		}
+	}
+	type liveE struct {
+		wire               []byte
+		stored, mexp, cexp time.Time
+	}
+	live := map[string]liveE{}
+	var keys []string
+	for _, k := range tried {
+		if m, st, me, ce, ok := a.VerifPeek(k); ok {
+			w, _ := m.Pack()
+			live[k] = liveE{w, st, me, ce}
+			keys = append(keys, k)
+		}
+	}
+	srvA := httptest.NewServer(a.Api())
+	defer srvA.Close()
+	srvB := httptest.NewServer(b.Api())
+	defer srvB.Close()
+	cl := &http.Client{Timeout: 120 * time.Second}
+	chunked := r.Rng.Intn(3) == 0
+	desc := map[string]any{"configured_size": size, "lazy_cache_ttl": lazy, "entries_live": len(keys), "answers": []string{"1..4 A records", "1..2 TXT records of 1020 octets of base64 key material", "14..19 TXT records of 1020 octets of base64 key material"}[kind],
+		"path": "GET /dump of cache A over HTTP, body posted to /load_dump of an empty cache B with the same configured size", "post_chunked": chunked}
+	r.Count("smalldump-scenario")
+	r.Count(fmt.Sprintf("smalldump-kind-%d", kind))
+	resp, err := cl.Get(srvA.URL + "/dump")
+	if err != nil {
+		r.Count("smalldump-http-skipped")
+		return
+	}
+	dump, err := io.ReadAll(resp.Body)
+	resp.Body.Close()
+	desc["dump_bytes"] = len(dump)
+	r.Eval(fmt.Sprintf("smalldump:%d:%d:%d:%d:%d", round, size, kind, len(keys), len(dump)>>10), len(keys) > size && len(dump) > size*1024)
+	if err != nil || resp.StatusCode != http.StatusOK {
+		desc["status"], desc["err"] = resp.StatusCode, fmt.Sprint(err)
+		r.Fail("GET /dump of a cache configured with a small size failed", desc)
+		return
+	}
+	var body io.Reader = bytes.NewReader(dump)
+	if chunked {
+		body = chunked19{body}
+	}
+	resp2, err := cl.Post(srvB.URL+"/load_dump", "application/octet-stream", body)
+	if err != nil {
+		// a server that stops reading and closes the connection shows up here
+		desc["err"], desc["entries_in_B"] = fmt.Sprint(err), b.VerifLen()
+		if b.VerifLen() != len(keys) && time.Since(began) < 60*time.Second {
+			r.Fail("POST /load_dump of an intact dump of a cache configured with a small size failed", desc)
+		}
+		return
+	}
+	body2, _ := io.ReadAll(io.LimitReader(resp2.Body, 4096))
+	resp2.Body.Close()
+	if resp2.StatusCode != http.StatusOK {
+		desc["status"], desc["body"], desc["entries_in_B"] = resp2.StatusCode, strings.TrimSpace(string(body2)), b.VerifLen()
+		r.Fail("POST /load_dump of an intact dump of a cache configured with a small size is refused", desc)
+		return
+	}
+	// every lifetime is >= 3600 s
+	bad := 0
+	for _, k := range keys {
+		e := live[k]
+		m2, st2, me2, ce2, ok2 := b.VerifPeek(k)
+		if !ok2 {
+			if bad++; bad <= 3 {
+				r.Fail("a live entry of a cache configured with a small size is missing after GET /dump -> POST /load_dump", map[string]any{"key": kd19(k), "entries_loaded": b.VerifLen(), "scenario": desc})
+			}
+			continue
+		}
+		w2, _ := m2.Pack()
+		if !bytes.Equal(e.wire, w2) || e.stored.Unix() != st2.Unix() || e.mexp.Unix() != me2.Unix() || e.cexp.Unix() != ce2.Unix() {
+			if bad++; bad <= 3 {
+				r.Fail("a reloaded entry of a cache configured with a small size differs (answer or times to the second)", map[string]any{"key": kd19(k), "scenario": desc})
+			}
+		}
+	}
+	if b.VerifLen() != len(keys) {
+		desc["after"] = b.VerifLen()
+		r.Fail("the cache after GET /dump -> POST /load_dump does not hold the same number of entries", desc)
+	}
+}
